@@ -44,6 +44,7 @@ def run(ctx):
     malsec.mac_validate_guard(ctx, facts, "GUARD-mac")
     malsec.padding_guard(ctx, facts, "GUARD-padding")
     malsec.dzkp_verify_guard(ctx, facts, "GUARD-dzkp")
+    malsec.dzkp_validate_path(ctx, facts, "PATH-verdict")
     malsec.drop_guard(ctx, facts, "WHO-drop")
     from rules import C04
     C04.wire_acc(ctx, facts)
